@@ -13,11 +13,9 @@
    Not here (owned by the engine package): C02_targets (a deeper layer's
    targets are the reported positions of its stubs); the theorems below hold
    for arbitrary targets.
-   Not proved (stretch item of DESIGN.md, C02_distance_to_hard_optimum_partial):
-   a bound ||x - x_hard||^2 <= C * delta on the distance to the optimum under
-   HARD bounds.  What stands instead: C02_beats_bounded (x is at least as good
-   as every bounded placement) and C03_inside (x leaves the bounds by at most
-   delta). *)
+   The distance to the optimum under HARD bounds (stretch item of DESIGN.md) is
+   proved at the end of this file: C02_hard_optimum, C02_hard_close,
+   C02_distance_to_hard_optimum. *)
 From Coq Require Import ZArith QArith List Bool.
 From Labella Require Import Base.QUtil Base.QUtilProofs Layout.Pava Layout.PavaProofs
   Layout.Layer Layout.LayerProofs.
@@ -160,4 +158,77 @@ Example C02_ex_unmoved :
 Proof.
   vm_compute. split; [discriminate|]. split; [repeat split; discriminate|].
   split; [split; discriminate|reflexivity].
+Qed.
+
+(* ==========================================================================
+   The distance to the optimum under HARD bounds (the placement the property
+   text speaks of), quantified.  This replaces the stretch item
+   C02_distance_to_hard_optimum_partial of DESIGN.md by the full statement and
+   turns the open finding "soft-wall-slack" into a quantified one.
+
+     hard_clamp o s   the model's solver variables clamped into the bounds in
+                      gap-offset coordinates (so the separation is kept; the
+                      two walls land exactly on minP / maxP), items only
+     slackL, slackR   how far the walls gave way: minP - x_L, x_R - maxP (0 if absent)
+     delta o its      (sum_i |x_i - t_i|) / 1e10   (C03_inside)
+   Holds whenever the layer fits (`fits`: no slack required), for any
+   combination of present / absent bounds. *)
+From Labella Require Import Layout.HardBoundProofs.
+
+(* hard_clamp is an admissible placement (separated, inside the bounds) and is
+   better than every other admissible placement, with a quadratic margin:
+   it is THE least-squares optimum among placements inside the bounds *)
+Theorem C02_hard_optimum : forall o its, its <> [] -> fits o (sorted_items its) ->
+  let s := sorted_items its in
+  let z := hard_clamp o s in
+  length z = length its /\ feasible (gaps o s) z /\ inside o s z /\
+  forall v, length v = length its -> feasible (gaps o s) v -> inside o s v ->
+    sqdist (map tgt s) z + sqdist z v <= sqdist (map tgt s) v.
+Proof. exact C02_hard_optimum_lemma. Qed.
+Print Assumptions C02_hard_optimum.
+
+(* the walls only give way outward, by at most delta (stationarity of the wall
+   variables), and no item of the model's solution is farther from hard_clamp
+   than its wall gave way *)
+Theorem C02_hard_close : forall o its, its <> [] -> fits o (sorted_items its) ->
+  let s := sorted_items its in
+  (0 <= slackL o s <= delta o its) /\ (0 <= slackR o s <= delta o its) /\
+  Forall2 (fun x z => - slackR o s <= z - x <= slackL o s) (solve_layer_exact o its) (hard_clamp o s).
+Proof. exact C02_hard_close_lemma. Qed.
+Print Assumptions C02_hard_close.
+
+(* hence for ANY least-squares optimum y among the separated placements inside
+   the bounds: y is hard_clamp, the model's exact positions are within the wall
+   displacements (<= delta) of it item by item, and sum (x_i - y_i)^2 <= n delta^2.
+   With C02_rounded the reported integers are within 1/2 + delta of y. *)
+Theorem C02_distance_to_hard_optimum : forall o its y, its <> [] -> fits o (sorted_items its) ->
+  let s := sorted_items its in
+  length y = length its -> feasible (gaps o s) y -> inside o s y ->
+  (forall v, length v = length its -> feasible (gaps o s) v -> inside o s v ->
+     sqdist (map tgt s) y <= sqdist (map tgt s) v) ->
+  Forall2 Qeq (hard_clamp o s) y /\
+  Forall2 (fun x yi => - slackR o s <= yi - x <= slackL o s) (solve_layer_exact o its) y /\
+  Forall2 (fun x yi => - delta o its <= yi - x <= delta o its) (solve_layer_exact o its) y /\
+  sqdist (solve_layer_exact o its) y <= qlen its * (delta o its * delta o its).
+Proof. exact C02_distance_to_hard_optimum_lemma. Qed.
+Print Assumptions C02_distance_to_hard_optimum.
+
+(* the witness of the finding (labels (1e11, 10) and (50, 10), bounds 0..100):
+   the optimum inside the bounds is [50; 95], the model's exact solution is
+   [50; 105 - 1e-8], reported [50; 105]; the right wall gave way by
+   slackR = delta = 9.9999999895..., which is exactly the actual distance:
+   the bound is attained. *)
+Example C02_ex_hard_distance :
+  let o := mkOpts 3 2 (Some 0) (Some 100) in
+  let its := [mkItem 100000000000 10 false; mkItem 50 10 false] in
+  its <> [] /\ fits o (sorted_items its) /\
+  map Qred (hard_clamp o (sorted_items its)) = [50; 95] /\
+  map Qred (solve_layer_exact o its) = [50; 1050000000000 # 10000000001] /\
+  Qred (slackL o (sorted_items its)) = 0 /\
+  Qred (slackR o (sorted_items its)) = 99999999905 # 10000000001 /\
+  Qred (delta o its) = 99999999905 # 10000000001 /\
+  Qred ((1050000000000 # 10000000001) - 95) = 99999999905 # 10000000001 /\
+  solve_layer o its = [50; 105]%Z.
+Proof.
+  vm_compute. split; [discriminate|]. split; [discriminate|]. repeat split; reflexivity.
 Qed.
